@@ -796,8 +796,43 @@ def rule_j(ctx):
          'the reset starts at self: nodes between self and a deeper changed field keep their stale facts')
 
 
+def rule_l(ctx):
+  """The path carried by a FieldUpdate is the real location of the change.  The List
+  primitives accept negative positions (as list does); before such a position goes into
+  `self.sym_path + index` it is rewritten to the real one - once per raw operation that
+  takes a negative index (replace: `index += len(self)`; insert: the clamp list.insert
+  applies; delete: `index += len(self)`).  `l.insert(-1, x)` and `del l[-1]` reported the
+  path `[-1]`."""
+  idx = ctx.index
+  for mname, raws in ((S.PRIMITIVE, ('list.__setitem__', 'list.insert')), ('_remove_item_without_permission_check', ('list.__delitem__',))):
+    f = idx.lookup_method(S.LIST, mname)
+    if f is None:
+      raise AnalysisError(f'List.{mname} vanished')
+    fus = [c for c in A.calls_in(f.node) if (A.call_name(c) or '').endswith('FieldUpdate') and c.args]
+    if not fus:
+      raise AnalysisError(f'List.{mname}: no FieldUpdate')
+    pvars = {x.id for c in fus for x in ast.walk(c.args[0]) if isinstance(x, ast.Name) and x.id != 'self'}
+    norms = 0
+    for t in ast.walk(f.node):
+      if isinstance(t, ast.If):
+        parts = t.test.values if isinstance(t.test, ast.BoolOp) else [t.test]
+        for pv in pvars:
+          if any(A.unparse(p) == f'{pv} < 0' for p in parts):
+            if any(isinstance(x, (ast.Assign, ast.AugAssign)) and pv in A.assigned_names(A.stmt_targets(x)[0])
+                   and 'len(self)' in A.unparse(x) for b in t.body for x in ast.walk(b)):
+              norms += 1
+    present = {r for r in raws if any(c08._raw_of_call(idx, f, c) == r for c in A.calls_in(f.node))}
+    if mname != S.PRIMITIVE:
+      present = set(raws)
+    ctx.ob('C09.l', f'List.{mname}#real-position', norms >= len(present),
+           f'a negative position is rewritten to the real one before it is reported ({len(present)} raw operations take one)',
+           f.loc, f'{norms} normalisation(s) for {sorted(present)}: l.insert(-1, x) / del l[-1] report the path [-1] instead '
+           f'of the position that changed')
+
+
 def run(ctx):
   ctx.consult(*FILES)
+  rule_l(ctx)
   from sa.rules import c10 as _c10
   _c10.rule_k(ctx, 'C09.k')   # the path carried by a FieldUpdate addresses the changed node
   rule_a(ctx)
